@@ -318,6 +318,14 @@ var fragLib = []fragGen{
 			stages:  stAny,
 		}
 	},
+	// 30: a very long identifier (length limits, hashing or truncation of names)
+	func(c *compCtx, k int) fragInst {
+		long := "very_long_identifier_" + strings.Repeat("abcdefghij", 115) + fmt.Sprint(k)
+		return fragInst{
+			body:   fmt.Sprintf("let %s = acc * 1.5 + 2.0;\nacc += %s;\n", long, long),
+			stages: stAny,
+		}
+	},
 }
 
 // vocab: identifiers used as overrides by some programs and as constants or
@@ -419,6 +427,18 @@ func composeProgram(r *rng, name string, withOverrides int) proto.Source {
 		wgOverride = "wgx"
 	}
 	var lateConsts strings.Builder
+	// sometimes the entry points are called `main` and `main_`: a WGSL name that
+	// equals the name a back end generates for another entry point
+	specialNames := r.chance(0.15)
+	epName := func(prefix string, e int) string {
+		if specialNames && e == 0 {
+			return "main"
+		}
+		if specialNames && e == 1 {
+			return "main_"
+		}
+		return fmt.Sprintf("%s_%d", prefix, e)
+	}
 	for e := 0; e < nEP; e++ {
 		st := stages[r.intn(len(stages))]
 		if e == 0 && len(forced) > 0 {
@@ -452,11 +472,11 @@ func composeProgram(r *rng, name string, withOverrides int) proto.Source {
 				wg = fmt.Sprintf("WGX_%d, WGY_%d, WGZ_%d", e, e, e)
 				fmt.Fprintf(&lateConsts, "const WGZ_%d: u32 = 1u;\nconst WGX_%d: u32 = 4u;\nconst WGY_%d: u32 = 2u;\n", e, e, e)
 			}
-			fmt.Fprintf(&src, "@compute @workgroup_size(%s)\nfn cs_%d(@builtin(global_invocation_id) gid: vec3<u32>, @builtin(local_invocation_index) lid: u32) {\n  var acc: f32 = f32(lid);\n  let idx = gid.x;\n%s  sink[idx] = acc;\n}\n", wg, e, ind(body.String()))
+			fmt.Fprintf(&src, "@compute @workgroup_size(%s)\nfn %s(@builtin(global_invocation_id) gid: vec3<u32>, @builtin(local_invocation_index) lid: u32) {\n  var acc: f32 = f32(lid);\n  let idx = gid.x;\n%s  sink[idx] = acc;\n}\n", wg, epName("cs", e), ind(body.String()))
 		case stVertex:
-			fmt.Fprintf(&src, "@vertex\nfn vs_%d(@builtin(vertex_index) vi: u32, @location(0) pos: vec3<f32>, @location(1) uv: vec2<f32>) -> VOut {\n  var acc: f32 = pos.x;\n  let idx = vi;\n%s  var o: VOut;\n  o.pos = vec4<f32>(pos * acc, 1.0);\n  o.uv = uv + vec2<f32>(acc);\n  o.id = idx;\n  return o;\n}\n", e, ind(body.String()))
+			fmt.Fprintf(&src, "@vertex\nfn %s(@builtin(vertex_index) vi: u32, @location(0) pos: vec3<f32>, @location(1) uv: vec2<f32>) -> VOut {\n  var acc: f32 = pos.x;\n  let idx = vi;\n%s  var o: VOut;\n  o.pos = vec4<f32>(pos * acc, 1.0);\n  o.uv = uv + vec2<f32>(acc);\n  o.id = idx;\n  return o;\n}\n", epName("vs", e), ind(body.String()))
 		case stFragment:
-			fmt.Fprintf(&src, "@fragment\nfn fs_%d(in: VOut) -> @location(0) vec4<f32> {\n  var acc: f32 = in.uv.x;\n  let idx = in.id;\n%s  return vec4<f32>(acc, in.uv, 1.0);\n}\n", e, ind(body.String()))
+			fmt.Fprintf(&src, "@fragment\nfn %s(in: VOut) -> @location(0) vec4<f32> {\n  var acc: f32 = in.uv.x;\n  let idx = in.id;\n%s  return vec4<f32>(acc, in.uv, 1.0);\n}\n", epName("fs", e), ind(body.String()))
 		}
 	}
 	src.WriteString(lateConsts.String())
